@@ -29,7 +29,7 @@ def esc(k):
     return k.replace("~", "~0").replace("/", "~1")
 
 
-def resolve(doc, frag):
+def resolve_once(doc, frag):
     r = RefResolver("", {})
     try:
         return ("ok", r.resolve_fragment(doc, frag))
@@ -37,6 +37,14 @@ def resolve(doc, frag):
         return ("unresolvable", None)
     except Exception as e:
         raise HarnessEscape(type(e).__name__)
+
+
+def resolve(doc, frag):
+    first = resolve_once(doc, frag)
+    second = resolve_once(doc, frag)       # the same fragment again, through a fresh resolver
+    if first[0] != second[0] or (first[0] == "ok" and first[1] is not second[1]):
+        raise HarnessEscape("second resolution of the same fragment differs from the first")
+    return first
 
 
 def well_formed(f):
